@@ -333,6 +333,33 @@ class UfuncModel(object):
         raise AnalysisError('no model for np.%s.at' % self.__name__)
 
 
+class _GeneratorContext(object):
+    """the context manager contextlib.contextmanager makes of a generator: runs it to the yield on entry, to the end on exit"""
+
+    def __init__(self, gen):
+        self.gen = gen
+
+    def __enter__(self):
+        try:
+            return next(self.gen)
+        except StopIteration:
+            raise InterpRaise("generator didn't yield", 'RuntimeError')
+
+    def __exit__(self, *exc):
+        try:
+            next(self.gen)
+        except StopIteration:
+            return False
+        raise InterpRaise("generator didn't stop", 'RuntimeError')
+
+
+def _contextmanager(fn):
+    def make(*a, **k):
+        return _GeneratorContext(iter(fn(*a, **k)))
+    make.__name__ = getattr(fn, '__name__', 'contextmanager')
+    return make
+
+
 class ContextDummy(object):
     def __enter__(self):
         return self
@@ -513,6 +540,10 @@ class Models(object):
             return ns if name is None else getattr(ns, name)
         if modname == 'operator':
             return self._operator_ns() if name is None else getattr(self._operator_ns(), name)
+        if modname == 'contextlib':
+            ns = Namespace('contextlib', contextmanager=_contextmanager, suppress=self._unmodelled('contextlib.suppress'),
+                           nullcontext=lambda enter_result=None: _GeneratorContext(iter([enter_result])))
+            return ns if name is None else getattr(ns, name)
         if modname == 'copy':
             ns = Namespace('copy', copy=lambda v: _copy_value(v, False, {}), deepcopy=lambda v, memo=None: _copy_value(v, True, {}))
             return ns if name is None else getattr(ns, name)
@@ -1398,8 +1429,15 @@ class Models(object):
         r = self._reduce(a, axis, lambda it: s_div(_sum_items(it), len(it)), 'mean')
         return _keepdims(r, a, axis) if kw.get('keepdims') else r
 
-    def np_cumsum(self, a, axis=None):
+    def np_cumsum(self, a, axis=None, dtype=None, **kw):
+        _only(kw, (), 'np.cumsum')
         a = self.np_asarray(a)
+        if dtype is not None:
+            k = dtype_target_kind(dtype)
+            if k == 'f' or (k is None and dtype not in (int, INT) and not str(getattr(dtype, 'name', dtype)).startswith(('int', 'uint'))
+                            and getattr(dtype, '__name__', '') not in ('intp', 'int64', 'int32', 'int_')):
+                a = cast_to_dtype(self, a, dtype)
+            # (integer accumulators: sums of truth values / integers are exact in the model anyway)
         if a.ndim > 1 and axis is not None:
             axis = axis % a.ndim
             perm = [axis] + [k for k in range(a.ndim) if k != axis]
